@@ -59,13 +59,13 @@ func ParsePP(b []byte) (n int, ver int, hasAddr bool, src, dst *net.TCPAddr, err
 			return 16 + l, 2, false, nil, nil, nil
 		}
 		switch b[13] {
-		case 0x11:
+		case 0x11, 0x12:
 			if l < 12 {
 				return 0, 2, false, nil, nil, fmt.Errorf("v2 inet body too short")
 			}
 			return 16 + l, 2, true, &net.TCPAddr{IP: net.IP(body[0:4]), Port: int(body[8])<<8 | int(body[9])},
 				&net.TCPAddr{IP: net.IP(body[4:8]), Port: int(body[10])<<8 | int(body[11])}, nil
-		case 0x21:
+		case 0x21, 0x22:
 			if l < 36 {
 				return 0, 2, false, nil, nil, fmt.Errorf("v2 inet6 body too short")
 			}
@@ -121,6 +121,7 @@ func runC12(t *testing.T, e *worlds.Env, tier string) (bool, any) {
 	aborted := false
 	var silentFor time.Duration
 	var ppTimeout time.Duration
+	var tapB []byte
 	var ipPost *layer4.MatchRemoteIP
 	splitAt := 0
 	var hdr2 *PPHeader
@@ -148,7 +149,9 @@ func runC12(t *testing.T, e *worlds.Env, tier string) (bool, any) {
 		if mode != 1 {
 			// the client speaks PROXY protocol
 			hdr = &PPHeader{Version: 1 + tp.Choose(2, "pp-ver"), Src: simnet.TCPAddr("192.0.2.77", 4242), Dst: simnet.TCPAddr("198.51.100.1", 8443)}
-			switch tp.Weighted("pp-kind", 5, 2, 1, 1, 1) {
+			switch tp.Weighted("pp-kind", 5, 2, 1, 1, 1, 1) {
+			case 5:
+				hdr.Version, hdr.UDP = 2, true // a datagram client behind the sender of this header
 			case 1:
 				hdr.Src, hdr.Dst = simnet.TCPAddr("2001:db8::77", 4242), simnet.TCPAddr("2001:db8::1", 8443)
 			case 2:
@@ -161,7 +164,7 @@ func runC12(t *testing.T, e *worlds.Env, tier string) (bool, any) {
 				hdr.TLVs = append([]byte{0x04, byte(tl >> 8), byte(tl)}, make([]byte, tl)...)
 			}
 			hdrBytes = hdr.Encode()
-			sample.Header = fmt.Sprintf("v%d local=%v unknown=%v src=%v tlv=%d (%d bytes)", hdr.Version, hdr.Local, hdr.Unknown, hdr.Src, len(hdr.TLVs), len(hdrBytes))
+			sample.Header = fmt.Sprintf("v%d local=%v unknown=%v udp=%v src=%v tlv=%d (%d bytes)", hdr.Version, hdr.Local, hdr.Unknown, hdr.UDP, hdr.Src, len(hdr.TLVs), len(hdrBytes))
 			var allow []string
 			switch tp.Weighted("allow", 3, 2, 2, 2) {
 			case 3:
@@ -302,7 +305,9 @@ func runC12(t *testing.T, e *worlds.Env, tier string) (bool, any) {
 						return nil
 					})})}
 				srvB := layer4.VerifNewServer(routesB, 0, e.Log)
-				e.N.AddUpstream("tcp", "10.1.0.1:80", func(c net.Conn, _ *simnet.End, _ int) { srvB.VerifHandle(c) })
+				e.N.AddUpstream("tcp", "10.1.0.1:80", func(c net.Conn, _ *simnet.End, _ int) {
+					srvB.VerifHandle(&tapConn{Conn: c, buf: &tapB})
+				})
 			}
 			h := &l4proxy.Handler{Upstreams: l4proxy.UpstreamPool{&l4proxy.Upstream{Dial: dialsTo}}, ProxyProtocol: "v" + strconv.Itoa(sendVer)}
 			if failover {
@@ -561,10 +566,32 @@ func runC12(t *testing.T, e *worlds.Env, tier string) (bool, any) {
 			}
 			return
 		}
-		// composition: server B's recorder checked the payload against modelB.App; set lazily
+		// composition: what the first server sent to the second, byte for byte
+		lk()
+		tap := append([]byte(nil), tapB...)
+		ulk()
+		if n, ver, has, src, dst, err := ParsePP(tap); err == nil && allowed && hdr != nil && !hdr.Unknown {
+			_ = n
+			switch {
+			case ver != sendVer:
+				fail("sent-header", "proxy configured for v%d relayed a v%d header", sendVer, ver)
+				return
+			case !has && !(sendVer == 1 && hdr.UDP):
+				// (v1 cannot name a datagram pair: UNKNOWN is all it has)
+				fail("sent-addresses", "the header sent upstream declares no addresses; the client's effective addresses are %s -> %s (received header: %s)", effSrc, effDst, sample.Header)
+				return
+			case has && (src.String() != effSrc || dst.String() != effDst) && !(sendVer == 1 && hdr.UDP):
+				fail("sent-addresses", "header sent upstream declares %v -> %v; the client's effective addresses are %s -> %s", src, dst, effSrc, effDst)
+				return
+			case has && ver == 2 && (tap[13]&0x0f == 2) != hdr.UDP:
+				fail("sent-addresses", "header sent upstream has family/protocol byte %#02x; the effective addresses are a datagram pair: %v", tap[13], hdr.UDP)
+				return
+			}
+		}
+		// server B's recorder checked the payload against modelB.App; set lazily
 		for _, s := range seenB {
-			if hdr != nil && allowed && (hdr.Unknown || hdr.Local) {
-				break
+			if hdr != nil && allowed && (hdr.Unknown || (hdr.UDP && sendVer == 1)) {
+				break // no addresses to relay (v1 cannot name a datagram pair)
 			}
 			if s.Remote != effSrc || s.Local != effDst {
 				fail("composition-addresses", "second server saw remote=%s local=%s after the relayed header; the client's effective addresses are %s / %s", s.Remote, s.Local, effSrc, effDst)
@@ -595,4 +622,29 @@ func calledHandler(m *worlds.ConnModel, name string) bool {
 		}
 	}
 	return false
+}
+
+// tapConn records what is read from a connection (the bytes one server sent to the next).
+type tapConn struct {
+	net.Conn
+	buf *[]byte
+}
+
+func (t *tapConn) Read(p []byte) (int, error) {
+	n, err := t.Conn.Read(p)
+	if n > 0 {
+		lk()
+		if len(*t.buf) < 4096 {
+			*t.buf = append(*t.buf, p[:n]...)
+		}
+		ulk()
+	}
+	return n, err
+}
+
+func (t *tapConn) CloseWrite() error {
+	if cw, ok := t.Conn.(interface{ CloseWrite() error }); ok {
+		return cw.CloseWrite()
+	}
+	return nil
 }
